@@ -44,9 +44,15 @@ func (msg *MsgCreatePrice) GetSignBytes() []byte {
 }
 
 func (msg *MsgCreatePrice) ValidateBasic() error {
-	_, err := sdk.AccAddressFromBech32(msg.Creator)
+	creator, err := sdk.AccAddressFromBech32(msg.Creator)
 	if err != nil {
 		return sdkerrors.ErrInvalidAddress.Wrapf("invalid creator address (%s)", err)
+	}
+	// the aggregator tells validators apart by the creator string: only the canonical spelling
+	// is accepted (bech32 also allows all upper case, under which the same validator would be
+	// counted a second time)
+	if creator.String() != msg.Creator {
+		return sdkerrors.ErrInvalidAddress.Wrapf("creator address is not in canonical form (%s)", msg.Creator)
 	}
 	// every consumer parses the price as a base-10 integer and ignores the parse result: a
 	// non-numeric string becomes a nil price inside the aggregator, where an agreed nil
